@@ -26,7 +26,7 @@ ASSUMPTIONS = ['workloads use only flows configured in every scheduler on their 
                'missing at quiescence is a loss']
 PROBES = ['tick_clock', 'fast_link', 'fib_replaced', 'elem_RED', 'red_drop', 'sched_many_to_one', 'elem_Port', 'elem_Wire', 'elem_TB', 'elem_TRTB', 'elem_SP', 'elem_WFQ', 'elem_VC', 'elem_DRR', 'elem_RR',
           'elem_WRR', 'elem_FlowDemux', 'elem_FIBDemux', 'elem_SimpleSwitch', 'elem_FairSwitch', 'tail_drop', 'wire_loss',
-          'end_devices_at_demux', 'no_route', 'fan_in', 'fan_out', 'generator', 'sink_per_src', 'sink_interarrival']
+          'compared_with_bare_twin', 'end_devices_at_demux', 'no_route', 'fan_in', 'fan_out', 'generator', 'sink_per_src', 'sink_interarrival']
 
 SCHEDS = {'SP': SP, 'WFQ': WFQ, 'VC': VC, 'DRR': DRR, 'RR': RR, 'WRR': WRR}
 
@@ -200,6 +200,8 @@ def gen(rng, tier, plain=False):
             else:
                 for x in s['workload']:
                     x[0] = x[0] / c
+    if not plain and rng.random() < 0.2:
+        case['twin'] = True
     if not tick and not case.get('fast_link') and not plain and rng.random() < 1 / 70:
         # a long haul through one scheduler (or port): thousands of packets in one busy period, nothing may be lost,
         # reordered within a flow, or left behind
@@ -402,6 +404,30 @@ def run(case):
     finally:
         restore()
     viol, stats, nontrivial = check(w, case, b, gens)
+    if case.get('twin'):
+        # the same pipeline from library elements only: no taps, nobody holding on to a packet or reading a counter
+        stats['compared_with_bare_twin'] = 1
+        w2 = NetWorld(case.get('t0', 0), bare=True)
+        b2, _g2, restore2 = build_pipeline(w2, case)
+        try:
+            w2.run(max_steps=600000 if case.get('long_haul') else 60000)
+        finally:
+            restore2()
+
+        def view(bb):
+            return [(nm, sorted((repr(f), list(ps.arrivals[f]), list(ps.waits[f]), ps.packets_received[f],
+                                 ps.bytes_received[f]) for f in set(ps.packets_received) | set(ps.arrivals)))
+                    for nm, ps in bb.sinks]
+        if w2.raised:
+            viol.append(('C08.T', 'the same pipeline without taps raised %r' % (w2.raised[0],)))
+        else:
+            va, vb = view(b), view(b2)
+            if va != vb:
+                k = next((i for i, (x, y) in enumerate(zip(va, vb)) if x != y), 0)
+                viol.append(('C08.T', 'the pipeline works differently when nobody watches it (library elements only, no taps, '
+                             'no packet kept alive by the harness): sink %s recorded %r with taps and %r without' %
+                             (va[k][0] if k < len(va) else '?', str(va[k][1] if k < len(va) else None)[:300],
+                              str(vb[k][1] if k < len(vb) else None)[:300])))
     res = {'viol': viol, 'digest': digest_of(w.log), 'nontrivial': nontrivial, 'stats': stats,
            'simtime': float(env.now), 'steps': w.steps}
     if case.get('_excerpt'):
